@@ -96,7 +96,27 @@ type ReplayFile struct {
 	RepoHead  string    `json:"repo_head,omitempty"`
 	RepoDirty bool      `json:"repo_dirty,omitempty"`
 	Extra     any       `json:"extra,omitempty"`
+	Phase     string    `json:"phase,omitempty"` // "netns": the worker ran in a network namespace without any address
 }
+
+// The environment phase of a check: extra environment and a command prefix for
+// every worker started while it is set (C08's run on a host without any
+// network address).
+var (
+	phaseEnv  []string
+	phaseWrap []string
+)
+
+func setPhase(name string) {
+	switch name {
+	case "netns":
+		phaseEnv, phaseWrap = []string{"FALCOSIM_C08_WORKLOAD=9"}, []string{"unshare", "-n"}
+	default:
+		phaseEnv, phaseWrap = nil, nil
+	}
+}
+
+func netnsAvailable() bool { return exec.Command("unshare", "-n", "true").Run() == nil }
 
 func jsonOrString(b []byte) any {
 	var v any
@@ -143,8 +163,12 @@ func runWorker(bin string, job Job, scratch string, stuckAfter, hardLimit time.D
 	if !strings.Contains(bin, ".race.") && envInt("FALCOSIM_MEM_MB", 6144) > 0 {
 		cmd = exec.Command("prlimit", append([]string{"--as=" + strconv.FormatInt(int64(envInt("FALCOSIM_MEM_MB", 6144))<<20, 10)}, wargs...)...)
 	}
+	if len(phaseWrap) > 0 {
+		cmd = exec.Command(phaseWrap[0], append(append([]string{}, phaseWrap[1:]...), cmd.Args...)...)
+	}
 	cmd.Env = append(os.Environ(), "FALCOSIM_JOB="+jobPath, "FALCOSIM_REPO="+repoDir)
 	cmd.Env = append(cmd.Env, extraEnv...)
+	cmd.Env = append(cmd.Env, phaseEnv...)
 	cmd.Dir = scratch
 	var log bytes.Buffer
 	cmd.Stdout = &log
@@ -486,6 +510,57 @@ func runSimCheck(id, tier string, seed uint64, p propInfo, scratch string, start
 		fmt.Printf("falcosim: %s — %s\n", h.Violation.Key, firstLine(h.Violation.Detail))
 	}
 
+	// C08, environment phase: the predefined-variables workload on a host that
+	// has no network address at all (a sandbox, a container without network).
+	var netnsCov map[string]any
+	if id == "C08" {
+		netnsCov = map[string]any{"available": netnsAvailable()}
+		if netnsCov["available"].(bool) {
+			setPhase("netns")
+			n := 4000
+			if tier == "thorough" {
+				n = 60000
+			}
+			job := Job{Mode: "range", Property: id, Tier: tier, Seed: seed, Worker: 0, Workers: 1, MaxCases: n}
+			o, _, err := runWorker(bi.Bin, job, scratch, stuck, caseBudget, nil)
+			if err != nil {
+				setPhase("")
+				fmt.Fprintf(os.Stderr, "falcosim: the no-network-address phase failed: %v\n", firstLine(err.Error()))
+				return 2
+			}
+			netnsCov["cases"] = o.Evaluations
+			for _, f := range o.Found {
+				k := "netns:" + f.Violation.Key
+				if kf.known(id, f.Violation.Key) != nil {
+					knownHit[f.Violation.Key] += f.Count
+					continue
+				}
+				rj := Job{Mode: "replay", Property: id, Tier: tier, Seed: seed, Tape: f.Tape}
+				ro, _, rerr := runWorker(bi.Bin, rj, scratch, 5*time.Minute, 10*time.Minute, nil)
+				confirmed := false
+				if rerr == nil {
+					for _, x := range ro.Found {
+						if x.Violation.Key == f.Violation.Key {
+							confirmed = true
+						}
+					}
+				}
+				if !confirmed {
+					fmt.Fprintf(os.Stderr, "falcosim: violation %s of the no-network-address phase did not reproduce — not reported\n", k)
+					continue
+				}
+				v := f.Violation
+				v.Detail = "(worker run in a network namespace without any address: `unshare -n`)\n" + v.Detail
+				rf := ReplayFile{Property: id, Engine: p.Engine, Tier: tier, Seed: seed, Case: f.Case, Tape: f.Tape, Violation: v, Original: len(f.Tape), Phase: "netns"}
+				rf.RepoHead, rf.RepoDirty = repoHead(), repoStatus() != ""
+				path := writeReplay(rf)
+				reported = append(reported, fmt.Sprintf("VIOLATION property=%s replay=%s", id, path))
+				fmt.Printf("falcosim: %s x%d — %s\n", k, f.Count, firstLine(v.Detail))
+				keys = append(keys, k)
+			}
+			setPhase("")
+		}
+	}
 	var raceCov map[string]any
 	if id == "C18" {
 		var raceReported []string
@@ -524,6 +599,9 @@ func runSimCheck(id, tier string, seed uint64, p propInfo, scratch string, start
 		"build_seconds":       bi.Seconds,
 		"repo_head":           repoHead(),
 		"repo_dirty":          repoStatus() != "",
+	}
+	if netnsCov != nil {
+		cov["no_network_address_phase"] = netnsCov
 	}
 	if len(m.samples) == 0 {
 		cov["samples"] = []any{"no non-trivial sampled case was rendered in this run"}
@@ -644,6 +722,8 @@ func runReplay(path string) int {
 		return 2
 	}
 	var o *Out
+	setPhase(rf.Phase)
+	defer setPhase("")
 	if rf.Hang {
 		job := Job{Mode: "range", Property: rf.Property, Tier: rf.Tier, Seed: rf.Seed, Worker: int(rf.Case), Workers: 1 << 30}
 		_, _, err = runWorker(bi.Bin, job, scratch, 10*time.Minute, 10*time.Minute, nil)
